@@ -21,7 +21,10 @@ THEOREMS = [
     'CC.C02_component_eq_spec', 'CC.C02_transform_eq_spec',
     'CC.C02_exact', 'CC.C02_wrappers_generated', 'CC.C02_rms', 'CC.C02_rms_power', 'CC.C02_dc', 'CC.C02_gate_boundary',
 ]
-OPEN_STATEMENTS = ['C02_exact states neither existence nor uniqueness of the solution vector: existence is C01_solvable_statement (open in C01), uniqueness CC.C01_unique / C01_matrix_unique (not restated); hypotheses S.check = ok and no self-loop are carried',
+# round 5: existence, uniqueness and det != 0 for a well-posed phasor network (CC/Properties/C02More.lean)
+LEAN_MODULE_EXTRA = ['CC.Properties.C02More']
+THEOREMS += ['CC.C02_exists_unique', 'CC.C02_wellPosed_transfer']
+OPEN_STATEMENTS = ['C02_exists_unique adds to C02_exact, for a WELL-POSED intended phasor network S: det(A) != 0, exactly one solution vector, and agreement of the reported quantities with every solution of CircuitEqs S; well-posedness of S is a hypothesis (decided per instance by the check with the exact tableau; no theorem says which component circuits are well-posed at which w, e.g. a capacitor in series with a current source at w = 0 is not); hypotheses S.check = ok and no self-loop are still carried; exact arithmetic over the Gaussian rationals only',
                    'C02_rms and conjunct 2 of C02_dc hold by definition of the hand-written wrappers cxGet / dcGet (linked to the generated formulas by C02_wrappers_generated for cxGet; dcGet by correspondence only); C02_dc conjunct 1 is rfl between two transcriptions of solution.py:37/59']
 ASSUMPTIONS = [
     'np.cos / np.sin / np.sqrt(2) are parameters of the model; the harness passes numpy\'s own values (r2 = np.sqrt(2), r2·r2 = 2 within 1 ulp)',
